@@ -18,6 +18,7 @@ def find_state_change_intervals(
     step=60,
 ) -> Generator:
     succ_value = get(head)
+    succ_level = head
     logger.debug('%s at head %s', succ_value, head)
 
     for level in range(head - step, last, -step):
@@ -28,6 +29,14 @@ def find_state_change_intervals(
             logger.debug('%s -> %s at (%s, %s)', value, succ_value, level, level + step)
             yield level + step, succ_value, level, value
             succ_value = value
+        succ_level = level
+
+    # the tail (last, lowest probed level] is part of the range as well
+    if succ_level > last:
+        value = get(last)
+        logger.debug('%s at level %s', value, last)
+        if not equals(value, succ_value):
+            yield succ_level, succ_value, last, value
 
 
 def find_state_change(
